@@ -106,8 +106,8 @@ def gen_value(t, rng, c: Counter, force=None):
         n = c.next()
         return [n % 250, (n + 1) % 250]
     if k == "opt":
-        if force in ("first", "owned") or (force is None and rng.random() < 0.7):
-            return ("Some", gen_value(t[1], rng, c, force if force == "owned" else None))
+        if force in ("first", "owned", "empty") or (force is None and rng.random() < 0.7):
+            return ("Some", gen_value(t[1], rng, c, force if force in ("owned", "empty") else None))
         return None
     if k == "res":
         if force == "owned":
@@ -115,18 +115,24 @@ def gen_value(t, rng, c: Counter, force=None):
             if can_own(t[1]) and not (can_own(t[2]) and rng.random() < 0.5):
                 return ("Ok", gen_value(t[1], rng, c, force))
             return ("Err", gen_value(t[2], rng, c, force))
+        if force == "empty":
+            has_vec = lambda x: x[0] == "vec" or any(has_vec(y) for y in x[1:] if isinstance(y, (list, tuple)))
+            if has_vec(t[1]) or not has_vec(t[2]):
+                return ("Ok", gen_value(t[1], rng, c, force))
+            return ("Err", gen_value(t[2], rng, c, force))
         if (force == "first") or (force is None and rng.random() < 0.5):
             return ("Ok", gen_value(t[1], rng, c))
         return ("Err", gen_value(t[2], rng, c))
     if k == "vec":
+        # force == "empty": every vector in the value is empty (an empty vector is a value like any other)
         n = rng.choice([0, 1, 2, 3, 4]) if force is None else (2 if force in ("first", "owned") else 0)
         return ["vec"] + [gen_value(t[1], rng, c, force if force == "owned" else None) for _ in range(n)]
     if k == "poll":
-        if force in ("first", "owned") or (force is None and rng.random() < 0.7):
-            return ("Ready", gen_value(t[1], rng, c, force if force == "owned" else None))
+        if force in ("first", "owned", "empty") or (force is None and rng.random() < 0.7):
+            return ("Ready", gen_value(t[1], rng, c, force if force in ("owned", "empty") else None))
         return ("Pending",)
     if k == "tup":
-        return ("tup",) + tuple(gen_value(x, rng, c, force if force == "owned" else None) for x in t[1:])
+        return ("tup",) + tuple(gen_value(x, rng, c, force if force in ("owned", "empty") else None) for x in t[1:])
     raise ValueError(t)
 
 
